@@ -547,19 +547,19 @@ func (e *Engine) initNonNil(g *ssa.Global) bool {
 // ---------- verification of one function ----------
 
 type FuncResult struct {
-	Key        string
-	Name       string
-	File       string
-	NInstr     int
-	Obls       []*Obligation
-	BindErrors []string
-	Warnings   []string
-	Assumed    []string
-	Havocked   []string
-	Used       []string
+	Key         string
+	Name        string
+	File        string
+	NInstr      int
+	Obls        []*Obligation
+	BindErrors  []string
+	Warnings    []string
+	Assumed     []string
+	Havocked    []string
+	Used        []string
 	Unsupported string
-	Mode       string
-	GenTimeS   float64
+	Mode        string
+	GenTimeS    float64
 }
 
 func (e *Engine) Verify(con *Contract, quick bool) *FuncResult {
@@ -652,6 +652,13 @@ func (vc *VC) run() {
 		t := vc.q.Declare("fv$"+sanitize(fv.Name()), vc.sortOf(fv.Type()))
 		fr.freeVars[fv] = t
 		vc.q.Assert(vc.wfAssume(st, t, fv.Type(), 0))
+	}
+	for i, fv := range fn.FreeVars {
+		// a captured variable that is written once, before any closure over it exists, and never handed out by
+		// address: no call (and no loop) can change its cell, so it is kept across havocs like a local
+		if writeOnceCapture(fn, i, 0) {
+			fr.localRoots = append(fr.localRoots, Root(fr.freeVars[fv]))
+		}
 	}
 	env0 := vc.newEnv(fr, st, fr.entry)
 	vc.evalLets(env0, con, nil)
@@ -881,7 +888,6 @@ func (vc *VC) frameObligations(fr *Frame, envPre *Env, exit *State) {
 	}
 }
 
-
 // ---------- type-graph completeness of a position list ----------
 
 // checkTypePaths enumerates every access path from the root type to a value of the target type
@@ -970,4 +976,138 @@ func (e *Engine) checkTypePaths(tp *TypePathSpec) *FuncResult {
 	}
 	sort.Strings(res.Assumed)
 	return res
+}
+
+// writeOnceCapture reports whether the idx-th free variable of the closure fn is bound, at every MakeClosure for
+// fn, to a variable cell that is initialised exactly once in the entry block of its function before any closure
+// is made, is never stored to again (by the owner or by any closure capturing it) and whose address never escapes
+// otherwise.
+func writeOnceCapture(fn *ssa.Function, idx int, depth int) bool {
+	parent := fn.Parent()
+	if parent == nil || depth > 4 {
+		return false
+	}
+	found := false
+	for _, b := range parent.Blocks {
+		for _, ins := range b.Instrs {
+			mc, ok := ins.(*ssa.MakeClosure)
+			if !ok || mc.Fn != ssa.Value(fn) || idx >= len(mc.Bindings) {
+				continue
+			}
+			found = true
+			switch bind := mc.Bindings[idx].(type) {
+			case *ssa.Alloc:
+				if !writeOnceCell(bind, depth) {
+					return false
+				}
+			case *ssa.FreeVar:
+				j := -1
+				for k, pfv := range parent.FreeVars {
+					if pfv == bind {
+						j = k
+					}
+				}
+				if j < 0 || !readOnlyUses(bind, depth) || !writeOnceCapture(parent, j, depth+1) {
+					return false
+				}
+			default:
+				return false
+			}
+		}
+	}
+	return found
+}
+
+// readOnlyUses: the address held by v (an Alloc or FreeVar of pointer-to-variable type) is only loaded from or
+// captured by closures that themselves only load from it.
+func readOnlyUses(v ssa.Value, depth int) bool {
+	refs := v.Referrers()
+	if refs == nil {
+		return false
+	}
+	for _, r := range *refs {
+		switch u := r.(type) {
+		case *ssa.UnOp:
+			if u.Op != token.MUL {
+				return false
+			}
+		case *ssa.DebugRef:
+		case *ssa.MakeClosure:
+			g, ok := u.Fn.(*ssa.Function)
+			if !ok || depth > 4 {
+				return false
+			}
+			for k, bnd := range u.Bindings {
+				if bnd == v {
+					if k >= len(g.FreeVars) || !readOnlyUses(g.FreeVars[k], depth+1) {
+						return false
+					}
+				}
+			}
+		case *ssa.Store:
+			return false
+		default:
+			return false
+		}
+	}
+	return true
+}
+
+func writeOnceCell(a *ssa.Alloc, depth int) bool {
+	refs := a.Referrers()
+	if refs == nil {
+		return false
+	}
+	fn := a.Parent()
+	var init *ssa.Store
+	for _, r := range *refs {
+		if st, ok := r.(*ssa.Store); ok {
+			if st.Addr != ssa.Value(a) || init != nil {
+				return false
+			}
+			init = st
+		}
+	}
+	if init == nil || len(fn.Blocks) == 0 || init.Block() != fn.Blocks[0] {
+		return false
+	}
+	// every closure over the cell is made after the initialising store
+	seenInit := false
+	for _, ins := range fn.Blocks[0].Instrs {
+		if ins == ssa.Instruction(init) {
+			seenInit = true
+		}
+		if mc, ok := ins.(*ssa.MakeClosure); ok && !seenInit {
+			for _, b := range mc.Bindings {
+				if b == ssa.Value(a) {
+					return false
+				}
+			}
+		}
+	}
+	for _, r := range *refs {
+		switch u := r.(type) {
+		case *ssa.Store:
+		case *ssa.UnOp:
+			if u.Op != token.MUL {
+				return false
+			}
+		case *ssa.DebugRef:
+		case *ssa.MakeClosure:
+			g, ok := u.Fn.(*ssa.Function)
+			if !ok {
+				return false
+			}
+			for k, bnd := range u.Bindings {
+				if bnd == ssa.Value(a) {
+					if k >= len(g.FreeVars) || !readOnlyUses(g.FreeVars[k], depth+1) {
+						return false
+					}
+				}
+			}
+		default:
+			return false
+		}
+	}
+	return true
 }
